@@ -25,6 +25,8 @@ type faultReader struct {
 	k     int
 	pos   int
 	chunk int // maximum bytes per Read (0 = as much as asked)
+	// together: the bytes just before the fault are delivered together with the error
+	together bool
 }
 
 func (r *faultReader) Read(p []byte) (int, error) {
@@ -40,6 +42,10 @@ func (r *faultReader) Read(p []byte) (int, error) {
 	}
 	copy(p, r.data[r.pos:r.pos+n])
 	r.pos += n
+	if r.together && r.pos >= r.k && n > 0 {
+		// the last bytes before the fault arrive together with the error (and the error is repeated afterwards)
+		return n, errInjected
+	}
 	return n, nil
 }
 
@@ -55,11 +61,24 @@ func (r faultReadSeeker) Seek(off int64, whence int) (int64, error) {
 
 // faultWriter accepts bytes up to offset k; the Write call crossing k fails, reporting the partial count.
 type faultWriter struct {
-	k   int // -1: never fails
-	buf bytes.Buffer
+	k    int // -1: never fails
+	mode int // 0: partial count and error; 1: the failing call reports the whole slice as taken, and the error; 2: nothing taken, and the error
+	dead bool
+	buf  bytes.Buffer
 }
 
 func (w *faultWriter) Write(p []byte) (int, error) {
+	if w.dead {
+		return 0, errInjected
+	}
+	if w.k >= 0 && w.buf.Len()+len(p) > w.k && w.mode != 0 {
+		w.dead = true
+		if w.mode == 1 {
+			w.buf.Write(p)
+			return len(p), errInjected
+		}
+		return 0, errInjected
+	}
 	if w.k >= 0 && w.buf.Len()+len(p) > w.k {
 		n := w.k - w.buf.Len()
 		if n < 0 {
@@ -82,6 +101,9 @@ type c18Case struct {
 	// LongLine: no fault; the document holds a line longer than 64 KiB and Cues cues
 	LongLine bool `json:"long_line,omitempty"`
 	Cues     int  `json:"cues,omitempty"`
+	// Mode: how the fault shows. Writers: 0 short count + error, 1 full count + error, 2 zero count + error.
+	// Readers: 0 error on the call after the last good byte, 1 error together with the last good bytes.
+	Mode int `json:"mode,omitempty"`
 }
 
 func init() { register("c18", checkC18) }
@@ -143,7 +165,7 @@ func checkC18(c c18Case) string {
 				msg = fmt.Sprintf("%s writer failed without any fault: %v", c.Writer, err)
 				return
 			}
-			fw := &faultWriter{k: c.FaultAt}
+			fw := &faultWriter{k: c.FaultAt, mode: c.Mode}
 			err := writeFormat(c.Writer, s, fw)
 			if c.FaultAt >= clean.buf.Len() {
 				// no fault reached: complete document must have been handed over and nil returned
@@ -153,12 +175,12 @@ func checkC18(c c18Case) string {
 				return
 			}
 			if err == nil {
-				msg = fmt.Sprintf("%s writer returned nil although the destination failed at byte %d of %d (only %d bytes were accepted)", c.Writer, c.FaultAt, clean.buf.Len(), fw.buf.Len())
+				msg = fmt.Sprintf("%s writer returned nil although the destination failed at byte %d of %d (fault mode %d, %d bytes were accepted)", c.Writer, c.FaultAt, clean.buf.Len(), c.Mode, fw.buf.Len())
 			}
 		})
 		return msg
 	}
-	fr := &faultReader{data: c.Doc, k: c.FaultAt, chunk: c.Chunk}
+	fr := &faultReader{data: c.Doc, k: c.FaultAt, chunk: c.Chunk, together: c.Mode == 1}
 	var r io.Reader = fr
 	if c.Format == "ts" {
 		r = faultReadSeeker{fr}
@@ -243,8 +265,8 @@ func TestC18(t *testing.T) {
 							if chunk == 1 && k%5 != 0 {
 								continue
 							}
-							c := c18Case{Format: format, Doc: doc, FaultAt: k, Chunk: chunk}
-							ev.CaseH(true, mix(strHash(string(doc)), uint64(k), uint64(chunk)), "read-fault", "format-"+format)
+							c := c18Case{Format: format, Doc: doc, FaultAt: k, Chunk: chunk, Mode: k % 2}
+							ev.CaseH(true, mix(strHash(string(doc)), uint64(k), uint64(chunk)), "read-fault", "format-"+format, fmt.Sprintf("read-fault-mode-%d", c.Mode))
 							total++
 							verdict(t, "C18", "c18", c, checkC18)
 						}
@@ -297,10 +319,12 @@ func TestC18(t *testing.T) {
 						})
 						ev.Sample("write-"+wf, map[string]any{"source_format": src, "source_document": clip(string(doc), 300), "writer": wf, "fault_offsets": fmt.Sprintf("0..%d", size)})
 						for k := 0; k <= size; k++ {
-							c := c18Case{Format: src, Doc: doc, Writer: wf, FaultAt: k}
-							ev.CaseH(k < size, mix(strHash(string(doc)), strHash(wf), uint64(k)), "write-fault", "writer-"+wf)
-							total++
-							verdict(t, "C18", "c18", c, checkC18)
+							for mode := 0; mode < 3; mode++ {
+								c := c18Case{Format: src, Doc: doc, Writer: wf, FaultAt: k, Mode: mode}
+								ev.CaseH(k < size, mix(strHash(string(doc)), strHash(wf), uint64(k), uint64(mode)), "write-fault", "writer-"+wf, fmt.Sprintf("write-fault-mode-%d", mode))
+								total++
+								verdict(t, "C18", "c18", c, checkC18)
+							}
 						}
 					}
 					job++
@@ -399,12 +423,12 @@ func TestC18(t *testing.T) {
 			return
 		}
 		if rapid.IntRange(0, 2).Draw(rt, "dir") == 0 && format != "ts" {
-			c := c18Case{Format: format, Doc: doc, Writer: rapid.SampledFrom(writerFormats).Draw(rt, "writer"), FaultAt: rapid.IntRange(0, 6000).Draw(rt, "k")}
+			c := c18Case{Format: format, Doc: doc, Writer: rapid.SampledFrom(writerFormats).Draw(rt, "writer"), FaultAt: rapid.IntRange(0, 6000).Draw(rt, "k"), Mode: rapid.IntRange(0, 2).Draw(rt, "wmode")}
 			ev.Case(true, fmt.Sprintf("%v", c), "random", "write-fault", "writer-"+c.Writer)
 			verdict(rt, "C18", "c18", c, checkC18)
 			return
 		}
-		c := c18Case{Format: format, Doc: doc, FaultAt: rapid.IntRange(0, faultLimit(format, doc)).Draw(rt, "k"), Chunk: rapid.SampledFrom([]int{0, 1, 7, 188, 4096}).Draw(rt, "chunk")}
+		c := c18Case{Format: format, Doc: doc, FaultAt: rapid.IntRange(0, faultLimit(format, doc)).Draw(rt, "k"), Chunk: rapid.SampledFrom([]int{0, 1, 7, 188, 4096}).Draw(rt, "chunk"), Mode: rapid.IntRange(0, 1).Draw(rt, "rmode")}
 		ev.Case(true, fmt.Sprintf("%v", c), "random", "read-fault", "format-"+format)
 		verdict(rt, "C18", "c18", c, checkC18)
 	})
